@@ -174,10 +174,15 @@ func verifC03Journal(cfg c03JrnCfg) {
 			nTx++
 			okHdr := c03DateOf(tx.Date) == e.date.v() && tx.Date2 == nil && tx.Status == e.status && tx.Code == "" && tx.Description == e.desc
 			zzverif.Assert(okHdr, cx.msg("C03 journal: transaction header differs from the derivation"))
+			// an indented comment line of the transaction may be recorded as a further comment of it
+			extra := 0
+			if e.lineTag.Name != "" {
+				extra = 1
+			}
 			if e.hdrCmnt != "" {
-				zzverif.Assert(len(tx.Comments) == 1 && tx.Comments[0].Text == e.hdrCmnt, cx.msg("C03 journal: header comment differs from the derivation"))
+				zzverif.Assert(len(tx.Comments) >= 1 && len(tx.Comments) <= 1+extra && tx.Comments[0].Text == e.hdrCmnt, cx.msg("C03 journal: header comment differs from the derivation"))
 			} else {
-				zzverif.Assert(len(tx.Comments) == 0, cx.msg("C03 journal: header comment differs from the derivation"))
+				zzverif.Assert(len(tx.Comments) <= extra, cx.msg("C03 journal: header comment differs from the derivation"))
 			}
 			zzverif.Assert(len(tx.Postings) == len(e.posts), cx.msg("C03 journal: number of postings differs from the derivation"))
 			for i, want := range e.posts {
